@@ -124,11 +124,11 @@ check("C18", "authfail",
       ENUM_NOTE + "ACL semantics are transcribed; auth-request.lua is not executed.", "DESIGN.md 6 C18")
 
 check("C09", "isolation",
-      "TLA+ spec Isolation.tla (Permitted per site and setting); TLC enumerates sites x forms x 2^4 settings x static flag x exposure; the real pipeline "
+      "TLA+ spec Isolation.tla (Permitted per site and setting); TLC enumerates sites (incl. Gateway certificateRefs) x forms x 2^4 settings x static flag x exposure x previous settings; the real pipeline "
       "runs each case in two worlds (reference to an existing foreign object / to nothing); TLC judges the recorded pairs (TraceIsolation.tla)",
       "Relational enumerated-input validation: when the reference is not permitted the exact normal form of the configuration must not depend on the "
       "foreign object; when it is permitted it must (sanity, else undecided). Includes the case where the foreign object is already loaded for its own namespace.",
-      ENUM_NOTE + "file:// references and Gateway certificateRefs are not in this check.", "DESIGN.md 6 C09")
+      ENUM_NOTE + "file:// references are not in this check.", "DESIGN.md 6 C09")
 
 check("C10", "gateway",
       "TLA+ spec GatewayAdmission.tla (independent evaluation of the attachment rules + what an admitted pair produces; Weights.tla contract for "
